@@ -424,7 +424,9 @@ ObsGet(o, rec) ==
       lim == o.cfg.limit
       serialBatch == \E i \in DOMAIN batch : batch[i].serial
       serialRunning == \E s \in Inflight(o) : IsSerial(o, s)
-      serialWaiting == rec.qs # <<>>
+      \* a serial entry that is READY (its retry delay, if any, has elapsed) is waiting for its turn;
+      \* a still delayed one is no reason to leave slots empty
+      serialWaiting == \E i \in DOMAIN rec.qs : rec.qs[i].left_us < 0
       readyLeft == ReadyC(rec.qc) # {}
       broke == o.trippedH
       wantOK == IF broke THEN rec.want = 0
